@@ -162,6 +162,14 @@ func (s *Swarm) findPeer(name mesh.PeerName) *Peer {
 	return peer
 }
 
+// peerSeen marks the peer as active. A peer we do not have in our list - one we have not
+// heard from yet, or one which went away and is back - is created, so that the subscriptions
+// we know of are routed to it (again) even if nothing about them changes.
+func (s *Swarm) peerSeen(name mesh.PeerName) {
+	s.findPeer(name)
+	s.members.Touch(name)
+}
+
 // onPeerOnline occurs when a new peer is created.
 func (s *Swarm) onPeerOnline(peer *Peer) {
 	logging.LogTarget("swarm", "peer created", peer.name)
@@ -234,7 +242,7 @@ func (s *Swarm) update() {
 			// Mark the peer as active, so even if there's no messages being exchanged
 			// we still keep the peer, since we know that the peer is live.
 			if exists := s.router.Peers.Fetch(peer.Name); exists != nil {
-				s.members.Touch(peer.Name)
+				s.peerSeen(peer.Name)
 			}
 
 			// reinforce structure
